@@ -3,7 +3,7 @@ import numpy as np
 
 from .. import graphs as G
 from .. import oracles as O
-from .common import call, close, dtype_variants_agree, layout_variants_agree
+from .common import call, close, dtype_variants_agree, layout_variants_agree, padding_invariant
 
 PROP = 'C08'
 ANCHORS = ['betweenness_bin', 'betweenness_wei', 'edge_betweenness_bin', 'edge_betweenness_wei']
@@ -125,5 +125,11 @@ def run(case, bct, REC):
             REC.tag(PROP, 'class:unreachable_pair')
         if multi or unre:
             REC.note_nontrivial(PROP, L)
+    if 4 <= n <= 9 and case['ws'] % 9 == 0:
+        Li = G.weigh(A, 'int', case['ws'], symmetric=not directed)
+        padding_invariant(REC, PROP, 'betweenness_bin', bct.betweenness_bin, A, 260, case['ws'], ('node',), 0.0)
+        padding_invariant(REC, PROP, 'betweenness_wei', bct.betweenness_wei, Li, 260, case['ws'], ('node',), 0.0)
+        padding_invariant(REC, PROP, 'edge_betweenness_bin', bct.edge_betweenness_bin, A, 260, case['ws'], ('pair', 'node'), 0.0)
+        padding_invariant(REC, PROP, 'edge_betweenness_wei', bct.edge_betweenness_wei, Li, 260, case['ws'], ('pair', 'node'), 0.0)
     if n <= 5:
         REC.sample(PROP, {'A': A, 'schemes': case['schemes']}, cap=4)
